@@ -143,3 +143,37 @@ Theorem global_enter_before_init_refuted :
   exists t0 t1, thrs (bar l) = [t0; t1] /\ t_ep t0 = 1%nat /\ t_arr t1 = 0%nat /\ calls t1 = 0%nat /\ uaf l = 0%nat.
 Proof. exact global_enter_before_init_refuted_lemma. Qed.
 Print Assumptions global_enter_before_init_refuted.
+
+(* ---- the proposed repair (docs/proposed_fixes/C11-destroy-last-leaver.diff): the wait loop of destroy also waits for the in
+   gate to be full again (chk_fixed; lexecG chk_fixed = the same machine with that loop condition; never tied to the code).
+   pend l = destroy is being / about to be called (cp CNext or CYield, script LDestroy/LGDestroy :: r with r inside the contract)
+   on a live barrier in a reachable state (inv) whose participants have ALL ARRIVED for their last episode (t_arr = epis):
+   the usual pattern "a participant returns from its last enter and destroys the barrier".  Then, for every schedule, nobody
+   touches the freed object, the object is freed only when everybody has returned, and the barrier stays safe meanwhile. *)
+Theorem barrier_destroy_repaired_waits_for_leavers :
+  forall (l : lstate) (sched : list nat),
+    pend l ->
+    let l' := lexecG chk_fixed l sched in
+    uaf l' = 0%nat /\ (alive l' = false -> settled (epis l') (bar l')) /\
+    (forall i j ti tj, nth_error (thrs (bar l')) i = Some ti -> nth_error (thrs (bar l')) j = Some tj ->
+                       (t_ep ti <= t_pas ti /\ t_pas ti <= t_arr tj /\ t_arr tj <= calls tj)%nat).
+Proof. exact destroy_fixed_waits_for_leavers_lemma. Qed.
+Print Assumptions barrier_destroy_repaired_waits_for_leavers.
+
+(* the repaired loop exits as soon as everybody has returned (destroy terminates), and inside the contract the repaired machine
+   has the same guarantees as the present one *)
+Theorem barrier_destroy_repaired_exits :
+  forall l, pend l -> all_done (epis l) (bar l) = true -> chk_fixed l = true.
+Proof. exact destroy_fixed_exits_lemma. Qed.
+Print Assumptions barrier_destroy_repaired_exits.
+
+Theorem barrier_lifecycle_safe_repaired :
+  forall (gm : bool) (sc : list lop) (sched : list nat),
+    okscript gm MD false 0%Z sc = true ->
+    let l := lexecG chk_fixed (lstart gm sc) sched in
+    uaf l = 0%nat /\
+    (forall i j ti tj, nth_error (thrs (bar l)) i = Some ti -> nth_error (thrs (bar l)) j = Some tj ->
+                       (t_ep ti <= t_pas ti /\ t_pas ti <= t_arr tj /\ t_arr tj <= calls tj)%nat) /\
+    (alive l = true -> cp l = CNext -> in_full (bar l) && out_full (bar l) = false /\ (0 <= blockers (bar l))%Z).
+Proof. exact life_contract_safe_fixed_lemma. Qed.
+Print Assumptions barrier_lifecycle_safe_repaired.
